@@ -425,7 +425,9 @@ def r20_ptr_offset(sig, body):
         e = ma.group(1).strip()
         if e.startswith('(') and _match_paren(e, 0) == len(e) - 1:
             e = e[1:-1].strip()
-        new = '%s(%s, %s)' % (fn_name, m.group(1), e)
+        # the distance is widened like the original cast widens it (`E as isize`): whatever integer type E has, the stub
+        # takes a usize, and an overflow INSIDE E (e.g. a sum of two u16 operands) stays an obligation of E's own type
+        new = '%s(%s, (%s) as usize)' % (fn_name, m.group(1), e)
         body = body[:pos + m.start()] + new + body[cl + 1 + m2.end():]
         pos = pos + m.start() + len(new)
         n += 1
